@@ -3,7 +3,7 @@
    values; `all_layout_subchains` = every contiguous data-to-data sub-chain of the three shipped layouts (82). *)
 From Coq Require Import ZArith List Bool.
 Import ListNotations.
-From QCE Require Import Base.Prelude C08.Model C09.Stim C09.Model LibBuild.StimBridge LibBuild.StimBridgeLayouts.
+From QCE Require Import Base.Prelude C08.Model C09.Stim C09.Spec C09.Sem C09.Model LibBuild.StimBridge LibBuild.StimBridgeLayouts.
 Open Scope Z_scope.
 
 Theorem LibStim_layouts_export_all_cycles : forall L ch rf cycles, In (L, ch) all_layout_subchains -> 0 <= cycles < two64 + 3 ->
@@ -12,3 +12,9 @@ Theorem LibStim_layouts_export_all_cycles : forall L ch rf cycles, In (L, ch) al
   /\ skeleton (lib_export D (lay_state D) [] cycles) = skeleton (rep_stim D (lay_state D) [] (Z.to_nat cycles)).
 Proof. exact layouts_all_cycles. Qed.
 Print Assumptions LibStim_layouts_export_all_cycles.
+
+Theorem LibStim_layouts_record_all_cycles : forall L ch rf cycles, In (L, ch) all_layout_subchains -> 0 <= cycles < two64 + 3 ->
+  let D := desc_of_layout L ch rf in
+  exec (gate_part (lib_export D (lay_state D) [] cycles)) = Some (protocol_record (lay_state D) [] (Z.to_nat cycles) rf, [], []).
+Proof. exact layouts_record_all_cycles. Qed.
+Print Assumptions LibStim_layouts_record_all_cycles.
